@@ -174,17 +174,28 @@ def run(ctx):
                         roles |= set("arg%d" % og[1] for og in gr.trace_local(pl[0]) if og[0] == "arg")
                 if "cur_phase" in roles and "arg2" in roles:
                     phase_tests.append((i, "ok" if nm.endswith("ne") else "err"))
-            if re.search(r"option::Option(<.*>|::<.*>)?::is_none$", nm) and t["args"]:
+            m_ = re.search(r"option::Option(<.*>|::<.*>)?::(is_none|is_some)$", nm)
+            if m_ and t["args"] and len(t["dest"]) == 1:
                 if any("remote" in place_fields(pl) for pl in deep_places(gr, t["args"][0], 4)):
-                    none_tests.append(i)
+                    none_tests.append((t["dest"][0], m_.group(2) == "is_none"))
+        # `match self.remote[i] { None => .. }` / `if let None = ..`
+        disc_none = []
+        for (i, j, p, rv, line) in gr.assigns():
+            if rv[0] == "disc" and "remote" in place_fields(rv[1]) and len(p) == 1:
+                for sbk in gr.live_blocks():
+                    tt = gr.term(sbk)
+                    if tt["t"] == "switch" and op_place(tt["on"]) == p:
+                        none_edge = set(tgt for v, tgt in tt["cases"] if int(v) == 0)
+                        some_edge = set(gr.succ(sbk)) - none_edge
+                        disc_none.append((sbk, none_edge, some_edge))
         for u in ups:
             ok_phase = any(guarded(i, side, u) for (i, side) in phase_tests)
-            # for a bool-returning call outcome_edges names the true edge 'ok'
-            ok_none = any(guarded(i, "ok", u) for i in none_tests)
+            ok_none = any(runs_only_when(gr, l, is_none, u) for (l, is_none) in none_tests) or \
+                any(gr.dominates(sbk, u) and bool(ne) and u not in gr.reachable_from(list(se), avoid={sbk}) for (sbk, ne, se) in disc_none)
             ctx.ob("R4", "%s|update() only for a different phase with no retained key" % gr.short, ok_phase and ok_none, gr.where(gr.term(u)["line"]),
                    "update() at bb%d: under `key_phase != cur_phase`: %s (tests at %s); under `remote[phase].is_none()`: %s (tests at %s) — "
                    "without the second condition a late packet of the previous phase (reordering), or the next genuine packet after one "
                    "forged phase bit, rotates the keys again: the retained key is overwritten and both directions lose sync for good"
-                   % (u, ok_phase, [i for i, _ in phase_tests], ok_none, none_tests))
+                   % (u, ok_phase, [i for i, _ in phase_tests], ok_none, len(none_tests) + len(disc_none)))
     ctx.assume("HeaderProtectionKey::sample_len() == 16 for every QUIC v1 cipher suite (RFC 9001 §5.4)")
     ctx.assume("decrypt_packet returns Ok only if the AEAD tag verifies (rustls/ring contract)")
